@@ -165,7 +165,7 @@ Ltac break_rst x :=
   destruct x as [linked [home cur synced queued sq] fly sent pushed owed].
 
 Ltac rcbn := cbn [r_linked r_up r_fly r_sent r_pushed r_owed v_home v_cur v_synced v_queued v_sq fst snd
-                  r_apply r_value r_synced r_link r_unlink r_ensure_linked vpush_value vpush_synced vpush_special
+                  r_apply r_value r_synced r_link r_unlink r_unlink_as r_ensure_linked vpush_value vpush_synced vpush_special
                   vpop evs fly_frames frames_of vtask wt_lane wt_action events_of flat_map app] in *.
 
 Lemma idle_clear H x : RInv H x -> v_home (r_up x) = true ->
@@ -229,11 +229,11 @@ Qed.
 Lemma r_link_linked x : r_linked (r_link x) = true.
 Proof. reflexivity. Qed.
 
-Lemma rinv_unlink H x : RInv H x -> RInv H (r_unlink x).
+Lemma rinv_unlink_as H x m : RInv H x -> RInv H (r_unlink_as x m).
 Proof.
   intros HI. pose proof (idle_clear H x HI) as Hidle.
   destruct HI as (H1 & H2 & H3 & H4 & H5 & H6 & H7 & H8 & H9).
-  break_rst x. unfold r_unlink. rcbn. destruct linked; [|unfold RInv; rcbn; tauto]. rcbn. destruct home; rcbn.
+  break_rst x. unfold r_unlink_as. rcbn. destruct linked; [|unfold RInv; rcbn; tauto]. rcbn. destruct home; rcbn.
   - destruct (Hidle eq_refl) as (-> & -> & -> & -> & ->). rcbn.
     unfold RInv; rcbn. rewrite !app_nil_r in *.
     split; [exact H1|]. split; [exact H2|]. split; [discriminate|]. split; [discriminate|]. split; [discriminate|].
@@ -242,6 +242,9 @@ Proof.
     split; [exact H1|]. split; [exact H2|]. split; [discriminate|]. split; [discriminate|]. split; [discriminate|].
     split; [exact H6|]. split; [discriminate|]. split; [auto|]. reflexivity.
 Qed.
+
+Lemma rinv_unlink H x : RInv H x -> RInv H (r_unlink x).
+Proof. apply rinv_unlink_as. Qed.
 
 Lemma rinv_ensure H x : RInv H x -> RInv H (r_ensure_linked x) /\ r_linked (r_ensure_linked x) = true.
 Proof.
@@ -361,8 +364,10 @@ Lemma owed_ensure x : r_owed (r_ensure_linked x) = r_owed x.
 Proof. unfold r_ensure_linked. destruct (r_linked x); reflexivity. Qed.
 Lemma owed_value x b : r_owed (r_value x b) = Some b.
 Proof. reflexivity. Qed.
+Lemma owed_unlink_as x m : r_owed (r_unlink_as x m) = None \/ r_owed (r_unlink_as x m) = r_owed x.
+Proof. unfold r_unlink_as. destruct (r_linked x); [now left|now right]. Qed.
 Lemma owed_unlink x : r_owed (r_unlink x) = None \/ r_owed (r_unlink x) = r_owed x.
-Proof. unfold r_unlink. destruct (r_linked x); [now left|now right]. Qed.
+Proof. apply owed_unlink_as. Qed.
 Lemma linked_value x b : r_linked (r_value x b) = r_linked x.
 Proof. reflexivity. Qed.
 Lemma linked_synced x : r_linked (r_synced x) = r_linked x.
@@ -374,7 +379,7 @@ Proof. unfold r_ensure_linked. destruct (r_linked x) eqn:E; [exact E|reflexivity
 
 Lemma pstep_inv p o : PInv p -> PInv (fst (fst (pstep p o))).
 Proof.
-  intros (G1 & G2 & G3). destruct o as [r|v|r| |r|r|r]; cbn [pstep fst].
+  intros (G1 & G2 & G3). destruct o as [r|v|r| |r|r|r|]; cbn [pstep fst].
   - (* a remote attaches *)
     destruct (aget r (p_rems p)) eqn:E; [exact (conj G1 (conj G2 G3))|]. unfold PInv, set_rems; cbn [p_lane p_hist p_rems].
     split; [exact G1|]. split.
@@ -432,6 +437,11 @@ Proof.
     + intros Hd k y b Hin Hy. apply In_rmap in Hin as (x & Hin & [->|[-> ->]]); [(eapply (G2 Hd); eauto)|].
       rewrite owed_done in Hy. (eapply (G2 Hd); eauto).
     + intros k y Hin. apply In_rmap in Hin as (x & Hin & [->|[-> ->]]); [now apply (G3 k x)|]. apply rinv_done. now apply (G3 r x).
+  - (* the agent stops: every link is closed *)
+    unfold PInv, set_rems; cbn [p_lane p_hist p_rems]. split; [exact G1|]. split.
+    + intros Hd k y b Hin Hy. apply In_rall in Hin as (x & Hin & ->).
+      destruct (owed_unlink_as x 1) as [E|E]; rewrite E in Hy; [discriminate|]. (eapply (G2 Hd); eauto).
+    + intros k y Hin. apply In_rall in Hin as (x & Hin & ->). apply rinv_unlink_as. now apply (G3 k x).
 Qed.
 
 Lemma pexec_inv ops : forall p, PInv p -> PInv (pexec p ops).
@@ -450,7 +460,8 @@ Proof. intros Hf. unfold sent_of. rewrite aget_rall. destruct (aget r m); cbn; a
 Lemma sent_value x b : r_sent (r_value x b) = r_sent x.  Proof. reflexivity. Qed.
 Lemma sent_synced x : r_sent (r_synced x) = r_sent x.  Proof. reflexivity. Qed.
 Lemma sent_link x : r_sent (r_link x) = r_sent x.  Proof. reflexivity. Qed.
-Lemma sent_unlink x : r_sent (r_unlink x) = r_sent x.  Proof. unfold r_unlink. destruct (r_linked x); reflexivity. Qed.
+Lemma sent_unlink_as x m : r_sent (r_unlink_as x m) = r_sent x.  Proof. unfold r_unlink_as. destruct (r_linked x); reflexivity. Qed.
+Lemma sent_unlink x : r_sent (r_unlink x) = r_sent x.  Proof. apply sent_unlink_as. Qed.
 Lemma sent_ensure x : r_sent (r_ensure_linked x) = r_sent x.  Proof. unfold r_ensure_linked. destruct (r_linked x); reflexivity. Qed.
 Lemma sent_done x : r_sent (fst (r_done x)) = r_sent x ++ snd (r_done x).
 Proof. unfold r_done. destruct (r_fly x); cbn; [reflexivity|now rewrite app_nil_r]. Qed.
@@ -467,7 +478,7 @@ Lemma sent_step p o r :
   sent_of r (p_rems (fst (fst (pstep p o)))) =
   sent_of r (p_rems p) ++ (match o with PDone r' => if r =? r' then snd (fst (pstep p o)) else [] | _ => [] end).
 Proof.
-  destruct o as [r'|v|r'| |r'|r'|r']; cbn [pstep fst snd]; rewrite ?app_nil_r; try reflexivity.
+  destruct o as [r'|v|r'| |r'|r'|r'|]; cbn [pstep fst snd]; rewrite ?app_nil_r; try reflexivity.
   - destruct (aget r' (p_rems p)) eqn:E; [reflexivity|]. cbn [set_rems p_rems]. unfold sent_of. rewrite aget_snoc.
     destruct (aget r (p_rems p)); [reflexivity|]. destruct (r =? r'); reflexivity.
   - destruct (vl_write (p_lane p)) as [[l' rs] res]. cbn [fst p_rems].
@@ -481,6 +492,7 @@ Proof.
       * apply N.eqb_eq in Er. subst r'. rewrite E. cbn. pose proof (sent_done x0) as H. rewrite Ed in H. exact H.
       * now rewrite app_nil_r.
     + cbn [fst snd]. destruct (r =? r'); now rewrite app_nil_r.
+  - cbn [set_rems p_rems]. apply sent_rall. intros x; apply sent_unlink_as.
 Qed.
 
 Lemma sent_run r ops : forall p,
@@ -495,7 +507,7 @@ Qed.
 Lemma hist_run ops : forall p, p_hist (pexec p ops) = p_hist p ++ flat_map (fun o => match o with PSet v => [v] | _ => [] end) ops.
 Proof.
   unfold pexec. induction ops as [|o ops IH]; intros p; cbn [fold_left flat_map]; [now rewrite app_nil_r|].
-  rewrite IH. destruct o as [r|v|r| |r|r|r]; cbn [pstep fst p_hist]; rewrite ?app_nil_l; try reflexivity.
+  rewrite IH. destruct o as [r|v|r| |r|r|r|]; cbn [pstep fst p_hist]; rewrite ?app_nil_l; try reflexivity.
   - destruct (aget r (p_rems p)); reflexivity.
   - now rewrite <- app_assoc.
   - destruct (vl_write (p_lane p)) as [[l' rs] res]. reflexivity.
@@ -546,9 +558,9 @@ Qed.
 Definition Owes (r : N) (p : pipe) : Prop :=
   exists x, aget r (p_rems p) = Some x /\ r_linked x = true /\ (vl_dirty (p_lane p) = true \/ r_owed x <> None).
 
-Lemma owes_step p o r : Owes r p -> o <> PUnlink r -> Owes r (fst (fst (pstep p o))).
+Lemma owes_step p o r : Owes r p -> o <> PUnlink r -> o <> PStopAll -> Owes r (fst (fst (pstep p o))).
 Proof.
-  intros (x & Hx & Hl & Hd) Ho. unfold Owes. destruct o as [r'|v|r'| |r'|r'|r']; cbn [pstep fst].
+  intros (x & Hx & Hl & Hd) Ho Hs. unfold Owes. destruct o as [r'|v|r'| |r'|r'|r'|]; cbn [pstep fst].
   - destruct (aget r' (p_rems p)) eqn:E; [now exists x|]. exists x. cbn [set_rems p_rems p_lane]. rewrite aget_snoc, Hx. auto.
   - exists x. cbn [p_rems p_lane vl_set vl_dirty]. auto.
   - exists x. cbn [p_rems p_lane vl_sync vl_dirty]. auto.
@@ -574,18 +586,19 @@ Proof.
       exists x'. split; [reflexivity|]. replace x' with (fst (r_done x)) by now rewrite Ed.
       rewrite linked_done, owed_done. auto.
     + exists x. auto.
+  - congruence.
 Qed.
 
-Lemma owes_run r ops : forall p, Owes r p -> Forall (fun o => o <> PUnlink r) ops -> Owes r (pexec p ops).
+Lemma owes_run r ops : forall p, Owes r p -> Forall (fun o => o <> PUnlink r /\ o <> PStopAll) ops -> Owes r (pexec p ops).
 Proof.
   unfold pexec. induction ops as [|o ops IH]; intros p H HF; cbn [fold_left]; [exact H|].
-  inversion HF as [|? ? Ho HF']; subst. apply IH; [now apply owes_step|exact HF'].
+  inversion HF as [|? ? [Ho Hs] HF']; subst. apply IH; [now apply owes_step|exact HF'].
 Qed.
 
 Theorem linked_remote_converges init ops1 ops2 r :
   let p1 := pexec (pipe0 init) ops1 in
   let p2 := pexec (pipe0 init) (ops1 ++ ops2) in
-  Owes r p1 -> Forall (fun o => o <> PUnlink r) ops2 ->
+  Owes r p1 -> Forall (fun o => o <> PUnlink r /\ o <> PStopAll) ops2 ->
   vl_dirty (p_lane p2) = false ->
   forall x, aget r (p_rems p2) = Some x -> v_home (r_up x) = true ->
   last_opt (events_of (r_sent x)) = Some (vl_content (p_lane p2)).
